@@ -1,11 +1,38 @@
-/-! scratch pilot: internal/cache/cache.go, sequential semantics; callback outcomes and time are inputs -/
+/-!
+# Ccd — model of `internal/cache/cache.go`, sequential semantics
+
+The cache is a map `key ↦ (value, last use)` with two limits.  Everything the code takes from its
+environment is an input of the model:
+
+* time: every operation that reads the clock gets `now : Nat` (logical ticks);
+* the cleanup callback (`Opts.PruneFn`): each operation gets `fl : Nat → Bool`, "the cleanup of the entry
+  under this key reports an error during this operation".  Theorems quantify over every `fl`.
+* the goroutine started by `Set` when the limit is exceeded (`go c.pruneCount()`) and the timer that calls
+  `pruneAge` are explicit operations; `set` takes the count prune at quiescence.
+
+`entries` stands for a Go map: its order carries no meaning (drivers sort before printing) and keys are
+unique (`Cache.WF`, preserved by every operation, `Ccd/Proofs.lean`).
+
+The model mirrors the code **as repaired by F12** (`minCount ≥ 1` whenever `Count > 0`); `mkCacheF12` is the
+code as it was, kept for the recorded counterexample.
+-/
 namespace Ccd
 
 structure Entry where
   key : Nat
   val : Nat
   used : Nat
-  deriving Repr
+  /-- which `Set` created the entry (stands for the identity of the `*Entry` pointer; only the interleaved
+      model `Ccd/Small.lean` reads it) -/
+  id : Nat := 0
+  deriving Repr, DecidableEq
+
+/-- one invocation of the cleanup callback and its outcome -/
+structure Call where
+  key : Nat
+  val : Nat
+  ok : Bool
+  deriving Repr, DecidableEq
 
 structure Cache where
   minAge : Nat          -- 0 = no age pruning
@@ -13,77 +40,136 @@ structure Cache where
   minCount : Nat
   hasFn : Bool
   entries : List Entry := []
+  nextId : Nat := 0
   deriving Repr
 
-def mkCache (age count : Nat) (hasFn : Bool) : Cache :=
-  { minAge := age, maxCount := count, minCount := if count > 0 then count * 9 / 10 else 0, hasFn := hasFn }
+/-- `int(float64(Count) * 0.9)` in integer arithmetic (the harness validates the float expression against
+    this for every `Count ≤ 10⁶`, thorough tier `10⁷`) -/
+def ninety (count : Nat) : Nat := count * 9 / 10
 
-/-- cleanup fails for odd values ≥ 100 (the test's scripted callback) -/
-def fails (v : Nat) : Bool := v ≥ 100 ∧ v % 2 = 1
+/-- `New` as it was before the F12 repair: `Count = 1` gives `minCount = 0`, which turns `pruneCount` off -/
+def mkCacheF12 (age count : Nat) (hasFn : Bool) : Cache :=
+  { minAge := age, maxCount := count, minCount := if count > 0 then ninety count else 0, hasFn := hasFn }
+
+/-- `New` (repaired): `minCount = max 1 ⌊0.9·Count⌋` when `Count > 0` -/
+def mkCache (age count : Nat) (hasFn : Bool) : Cache :=
+  { minAge := age, maxCount := count,
+    minCount := if count > 0 then (if ninety count < 1 then 1 else ninety count) else 0, hasFn := hasFn }
 
 def Cache.find (c : Cache) (k : Nat) : Option Entry := c.entries.find? (·.key = k)
 def Cache.erase (c : Cache) (k : Nat) : Cache := { c with entries := c.entries.filter (·.key ≠ k) }
-def Cache.put (c : Cache) (e : Entry) : Cache :=
-  if c.entries.any (·.key = e.key) then { c with entries := c.entries.map fun x => if x.key = e.key then e else x }
-  else { c with entries := c.entries ++ [e] }
+/-- `c.entries[key] = &Entry{…}` -/
+def Cache.put (c : Cache) (k v now : Nat) : Cache :=
+  { c with entries := c.entries.filter (·.key ≠ k) ++ [⟨k, v, now, c.nextId⟩], nextId := c.nextId + 1 }
+def Cache.has (c : Cache) (k : Nat) : Bool := c.entries.any (·.key = k)
 
-/-- result: cache, cleanup calls made (key, value) in order, error flag -/
-abbrev Out := Cache × List (Nat × Nat) × Bool
+/-- result: cache, cleanup calls made in order, error flag -/
+abbrev Out := Cache × List Call × Bool
 
+/-- does the cleanup of `e` run and fail? -/
+def failing (hasFn : Bool) (fl : Nat → Bool) (e : Entry) : Bool := hasFn && fl e.key
+/-- the callback invocation for `e` (none when no `PruneFn` is configured) -/
+def callOf (hasFn : Bool) (fl : Nat → Bool) (e : Entry) : List Call :=
+  if hasFn then [⟨e.key, e.val, !fl e.key⟩] else []
 
 def get (c : Cache) (k now : Nat) : Cache × Option Nat :=
   match c.find k with
-  | some e => (c.put { e with used := now }, some e.val)
+  | some e => ({ c with entries := c.entries.map fun x => if x.key = k then { x with used := now } else x }, some e.val)
   | none => (c, none)
 
-def delete (c : Cache) (k : Nat) : Out :=
+/-- `Delete`, callback and removal without anything in between (the interleaved version is `Ccd/Small.lean`) -/
+def delete (c : Cache) (k : Nat) (fl : Nat → Bool) : Out :=
   match c.find k with
   | some e =>
-    if c.hasFn then
-      if fails e.val then (c, [(k, e.val)], true) else (c.erase k, [(k, e.val)], false)
-    else (c.erase k, [], false)
+    if failing c.hasFn fl e then (c, callOf c.hasFn fl e, true)
+    else (c.erase k, callOf c.hasFn fl e, false)
   | none => (c, [], false)
 
-def deleteAll (c : Cache) : Out :=
-  c.entries.foldl (fun (acc : Out) e =>
-    let (c, calls, err) := acc
-    if c.hasFn then
-      if fails e.val then (c, calls ++ [(e.key, e.val)], true) else (c.erase e.key, calls ++ [(e.key, e.val)], err)
-    else (c.erase e.key, calls, err)) (c, [], false)
+/-- `DeleteAll`: every entry gets its cleanup; the ones whose cleanup fails stay -/
+def deleteAll (c : Cache) (fl : Nat → Bool) : Out :=
+  ({ c with entries := c.entries.filter (failing c.hasFn fl) },
+   c.entries.flatMap (callOf c.hasFn fl),
+   c.entries.any (failing c.hasFn fl))
 
-/-- pruneAge at time `now`: entries used before now - minAge are cleaned up and removed; a failing cleanup re-dates the entry -/
-def pruneAge (c : Cache) (now : Nat) : Out :=
+/-- is the entry older than the configured age at `now`?  (`used.Before(now.Add(-minAge))`) -/
+def expired (minAge now : Nat) (e : Entry) : Bool := e.used + minAge < now
+
+/-- the body of the loop in `pruneAge` for one entry -/
+def ageEntry (c : Cache) (now : Nat) (fl : Nat → Bool) (e : Entry) : Option Entry :=
+  if expired c.minAge now e then
+    if failing c.hasFn fl e then some { e with used := now } else none
+  else some e
+
+/-- `pruneAge` at time `now` -/
+def pruneAge (c : Cache) (now : Nat) (fl : Nat → Bool) : Out :=
   if c.minAge = 0 then (c, [], false) else
-  c.entries.foldl (fun (acc : Out) e =>
-    let (c, calls, err) := acc
-    if e.used + c.minAge < now then
-      if c.hasFn then
-        if fails e.val then (c.put { e with used := now }, calls ++ [(e.key, e.val)], err)
-        else (c.erase e.key, calls ++ [(e.key, e.val)], err)
-      else (c.erase e.key, calls, err)
-    else acc) (c, [], false)
+  ({ c with entries := c.entries.filterMap (ageEntry c now fl) },
+   (c.entries.filter (expired c.minAge now)).flatMap (callOf c.hasFn fl), false)
+
+/-- order of eviction: last use, ties by key (the code's order on ties is that of an unstable sort over a map
+    iteration, i.e. unspecified; the harness stamps ties so that they are broken by key) -/
+def olderEq (a b : Entry) : Bool := a.used < b.used || (a.used = b.used && a.key ≤ b.key)
 
 def insertByUsed (e : Entry) : List Entry → List Entry
   | [] => [e]
-  | x :: xs => if e.used < x.used ∨ (e.used = x.used ∧ e.key ≤ x.key) then e :: x :: xs else x :: insertByUsed e xs   -- ties broken by key (the harness stamps them so)
-def sortByUsed (l : List Entry) : List Entry := l.foldl (fun acc e => insertByUsed e acc) []
+  | x :: xs => if olderEq e x then e :: x :: xs else x :: insertByUsed e xs
+def sortByUsed : List Entry → List Entry
+  | [] => []
+  | e :: l => insertByUsed e (sortByUsed l)
 
-/-- pruneCount at time `now` -/
-def pruneCount (c : Cache) (now : Nat) : Out :=
+/-- the loop of `pruneCount` over the sorted key list: `n` deletions are still to be made
+    (`delLen - delCount`); a failing cleanup re-dates the entry and moves on -/
+def evict (hasFn : Bool) (fl : Nat → Bool) (now : Nat) : Nat → List Entry → List Entry × List Call
+  | 0, l => (l, [])
+  | _ + 1, [] => ([], [])
+  | n + 1, e :: rest =>
+    if failing hasFn fl e then
+      let r := evict hasFn fl now (n + 1) rest
+      ({ e with used := now } :: r.1, callOf hasFn fl e ++ r.2)
+    else
+      let r := evict hasFn fl now n rest
+      (r.1, callOf hasFn fl e ++ r.2)
+
+/-- `pruneCount` at time `now` -/
+def pruneCount (c : Cache) (now : Nat) (fl : Nat → Bool) : Out :=
   if c.minCount = 0 ∨ c.entries.length ≤ c.minCount then (c, [], false) else
-  let delLen := c.entries.length - c.minCount
-  let rec go (todo : List Entry) (c : Cache) (calls : List (Nat × Nat)) (delCount : Nat) : Out :=
-    match todo with
-    | [] => (c, calls, false)
-    | e :: rest =>
-      if delCount ≥ delLen then (c, calls, false) else
-      if c.hasFn then
-        if fails e.val then go rest (c.put { e with used := now }) (calls ++ [(e.key, e.val)]) delCount
-        else go rest (c.erase e.key) (calls ++ [(e.key, e.val)]) (delCount + 1)
-      else go rest (c.erase e.key) calls (delCount + 1)
-  go (sortByUsed c.entries) c [] 0
-/-- Set; when the count limit is exceeded the count prune (a goroutine in the code) is taken at quiescence -/
-def set (c : Cache) (k v now : Nat) : Out :=
-  let c1 := c.put ⟨k, v, now⟩
-  if c1.maxCount > 0 ∧ c1.entries.length > c1.maxCount then pruneCount c1 now else (c1, [], false)
+  let r := evict c.hasFn fl now (c.entries.length - c.minCount) (sortByUsed c.entries)
+  ({ c with entries := r.1 }, r.2, false)
+
+/-- `Set`; when the count limit is exceeded the count prune (a goroutine in the code) is taken at quiescence -/
+def set (c : Cache) (k v now : Nat) (fl : Nat → Bool) : Out :=
+  let c1 := c.put k v now
+  if c1.maxCount > 0 ∧ c1.entries.length > c1.maxCount then pruneCount c1 now fl else (c1, [], false)
+
+/-- the operations of the cache, with everything they read from outside -/
+inductive Op where
+  | set (k v now : Nat) (fl : Nat → Bool)
+  | get (k now : Nat)
+  | delete (k : Nat) (fl : Nat → Bool)
+  | deleteAll (fl : Nat → Bool)
+  | pruneAge (now : Nat) (fl : Nat → Bool)
+  | pruneCount (now : Nat) (fl : Nat → Bool)
+
+/-- the cache an operation starts to remove from: for `Set` the map after the assignment (overwriting a key
+    is an update of that entry, not a removal) -/
+def pre (c : Cache) : Op → Cache
+  | .set k v now _ => c.put k v now
+  | _ => c
+
+def step (c : Cache) : Op → Cache × List Call
+  | .set k v now fl => let r := set c k v now fl; (r.1, r.2.1)
+  | .get k now => ((get c k now).1, [])
+  | .delete k fl => let r := delete c k fl; (r.1, r.2.1)
+  | .deleteAll fl => let r := deleteAll c fl; (r.1, r.2.1)
+  | .pruneAge now fl => let r := pruneAge c now fl; (r.1, r.2.1)
+  | .pruneCount now fl => let r := pruneCount c now fl; (r.1, r.2.1)
+
+/-- a history: final cache and the log of all callback invocations -/
+def run (c : Cache) : List Op → Cache × List Call
+  | [] => (c, [])
+  | op :: ops => let r := step c op; let r' := run r.1 ops; (r'.1, r.2 ++ r'.2)
+
+/-- the cache after a history -/
+def after (c : Cache) (ops : List Op) : Cache := (run c ops).1
+
 end Ccd
